@@ -23,14 +23,14 @@ PROP = dict(
                'removes exactly the closing rounds and adds exactly one aggregate per closing round, built from that round\'s reports, their summed power '
                'and the next sequence number (under: no two rounds of one query close in one block, block time strictly increases); a tipped round '
                'without report keeps its id and amount through the end blocker; the cycle list moves only when the current query has no open window, '
-               'to (seq+1) mod length; the store invariant holds in every reachable state. The model is tied to the code by running the real keeper on '
+               'to (seq+1) mod length; the store invariant holds in every reachable state; no two rounds of one query ever close in the same block along every well-scheduled history with report windows of at least one block (C07_closing_distinct_all_histories: the hypothesis of the end-blocker theorem is an invariant). The model is tied to the code by running the real keeper on '
                'generated histories and comparing the complete oracle state after every operation.',
     level_note='Trusted: Coq kernel; the Go driver\'s dump of the oracle collections (query ids and reporter addresses replaced by their byte-order '
                'ranks). Supplied by the harness, not computed by the model: the reporter\'s stake (C10), the aggregate value and its reporter (C06), '
-               'payment of the tip with the aggregate (C04/C09). closing_distinct (no two rounds of one query close in one block) is a hypothesis of '
-               'the end-blocker theorem: it holds whenever each query has one open round, which only a bridge-deposit re-opening with a report window '
-               'of 0 blocks (a governance parameter; default 2000) can break; the executable specification checks it on every observed end blocker and '
-               'the driver keeps the bridge window >= 1.',
+               'payment of the tip with the aggregate (C04/C09). closing_distinct (no two rounds of one query close in one block) is proved to be an invariant of every history that follows the block '
+               'structure with all report windows >= 1 block; with a window of 0 blocks (a governance parameter; default 2000 for the bridge) a bridge-deposit '
+               're-opening can break it; the executable specification checks it on every observed end blocker and the driver keeps the bridge window >= 1 '
+               '(spot windows of 0 are driven: they cannot create a second round).',
     assumptions=['block time strictly increases; the end blocker runs once per height',
                  'the TRBBridge data spec keeps a report window of at least one block (governance parameter, default 2000)',
                  'collections iterate in key order (cosmossdk.io/collections over an ordered KV store)'],
